@@ -89,6 +89,9 @@ func genC03(seed uint64, idx int) *Plan {
 	}
 	if r.IntN(8) == 0 {
 		p.InnerSIDLen = 1 + r.IntN(32)
+		p.OuterSIDEmpty = r.IntN(2) == 0
+	} else if r.IntN(10) == 0 {
+		p.OuterSIDEmpty = true
 	}
 	return &Plan{Kind: "script", Seed: seed, Script: p}
 }
